@@ -2069,6 +2069,9 @@ class PyCdlib:
                 # The number of sectors to load may be more than the file
                 # holds; the file cannot reach into the data that follows it.
                 following = [extent for extent in extent_to_inode if extent > entry_extent]
+                # The boot files of the other entries lie on the ISO as well,
+                # whether or not they have an Inode yet.
+                following.extend(other.get_rba() for other in entries_to_assign if other.get_rba() > entry_extent)
                 # The last sector of a UDF bridge volume holds an Anchor.
                 following.append(self.pvd.space_size - (1 if self._has_udf else 0))
                 room = (min(following) - entry_extent) * self.logical_block_size
